@@ -16,6 +16,21 @@ CLAIMED = {
             "table, exhaustively over the property's operator set. Evaluation results are not decided.",
             "Assumes the parser is a Pratt loop driven by PARSE_RULES (its loop shape is checked, not proved); " + TRUST,
             "DESIGN.md §3 C03"),
+    "C13": ("def-use provenance of line arguments on MIR (fixpoint over call sites) + sibling-field congruence",
+            "Decides where every reported line comes from: each RTError::new reachable at run time takes its line from "
+            "Instructions.lines[current ip] (through parameters, closures) or the filter's own line; each emit / "
+            "CompileError line from the node's token; code and lines vectors are edited congruently. It does not decide "
+            "the scanner's own line counting.",
+            "Provenance is may-information over resolved call sites; indirect calls through builtin fn pointers carry no "
+            "line; " + TRUST,
+            "DESIGN.md §3 C13"),
+    "C14": ("exhaustive table agreement (opcode numbering, widths, decoder reads, ip advance, operand counts) + guard rule "
+            "on the narrowing casts of make()",
+            "Decides completely the codec tables: From<u8> vs discriminants for all 256 bytes, DEFINITIONS widths, what "
+            "each VM::run arm decodes and how far it advances, operand counts at all emit sites; and decides that every "
+            "non-constant operand passes a range test against exactly its width's maximum whose failure compile() returns.",
+            "Operand values themselves are not enumerated; the guard's limits are compared with the widths, not executed; " + TRUST,
+            "DESIGN.md §3 C14"),
 }
 
 NOT_APPLICABLE = {
